@@ -92,6 +92,8 @@ func handle(p []string) (res string) {
 		return opMarshal(p[1:])
 	case "unmarshal":
 		return opUnmarshal(p[1:])
+	case "roundtrip":
+		return opRoundtrip(p[1:])
 	case "wfault":
 		return opWFault(p[1:])
 	case "rfault":
